@@ -157,21 +157,23 @@ class OpacityEnv:
         from taurex.cache import GlobalCache
         self.prev = (GlobalCache()['opacity_method'], GlobalCache()['ktable_path'])
 
-    def kdir(self, kname):
-        if kname not in self.dirs:
-            d = os.path.join(self.root, kname)
+    def kdir(self, kname, kscale=None):
+        """kscale: {gas: factor} -- the whole table of a gas times a factor (abundance-magnitude classes)"""
+        key = (kname, tuple(sorted((kscale or {}).items())))
+        if key not in self.dirs:
+            d = os.path.join(self.root, '%s_%d' % (kname, len(self.dirs)))
             os.makedirs(d)
             w = KREAL[kname][0]
             for gas in ('H2O', 'CH4'):
-                k = np.broadcast_to(kcoef(gas, kname)[None, None] * 1e4, (2, 2, len(WN), len(w)))     # cm^2
+                k = np.broadcast_to(kcoef(gas, kname)[None, None] * 1e4 * (kscale or {}).get(gas, 1.0), (2, 2, len(WN), len(w)))     # cm^2
                 fxe.write_pickle_ktable(d, gas, WN, [50.0, 5000.0], [1e-3, 1e7], k, w)
-            self.dirs[kname] = d
-        return self.dirs[kname]
+            self.dirs[key] = d
+        return self.dirs[key]
 
-    def enter(self, mode, kname=None, xsec=None):
+    def enter(self, mode, kname=None, xsec=None, kscale=None):
         from taurex.cache import OpacityCache
         if mode == 'ktables':
-            fxe.set_mode('ktables', self.kdir(kname))
+            fxe.set_mode('ktables', self.kdir(kname, kscale))
         else:
             fxe.set_mode('xsec')
             OpacityCache().clear_cache()
@@ -267,10 +269,11 @@ class LayerClass:
         return dict(mix=mix, T=T, P=np.asarray(m.pressureProfile, dtype=float), n=np.asarray(m.densityProfile, dtype=float),
                     seg=chord_table(r, 'old'))
 
-    def tables(self, s, at):
+    def tables(self, s, at, dens=True):
         """-> (list of component tables A[k][w] or A[k][w][g], weights or None); None when the source has no
-        fixture formula (H-)"""
-        n, mix, T, P = at['n'], at['mix'], at['T'], at['P']
+        fixture formula (H-).  dens=False: the weighted opacity itself (cross-section x mixing ratio(s)), without the
+        density factor of the optical depth"""
+        n, mix, T, P = (at['n'] if dens else np.ones(NLR)), at['mix'], at['T'], at['P']
         if s == 'abs':
             if self.mode == 'ktables':
                 w = KREAL[self.kname][0]
